@@ -67,12 +67,15 @@ Compiler/Accounting.vos Compiler/Accounting.vok Compiler/Accounting.required_vos
 Compiler/AccountingC06.vo Compiler/AccountingC06.glob Compiler/AccountingC06.v.beautified Compiler/AccountingC06.required_vo: Compiler/AccountingC06.v Gen/AstBuilderArms.vo Compiler/Accounting.vo Compiler/AccountingProofs.vo
 Compiler/AccountingC06.vio: Compiler/AccountingC06.v Gen/AstBuilderArms.vio Compiler/Accounting.vio Compiler/AccountingProofs.vio
 Compiler/AccountingC06.vos Compiler/AccountingC06.vok Compiler/AccountingC06.required_vos: Compiler/AccountingC06.v Gen/AstBuilderArms.vos Compiler/Accounting.vos Compiler/AccountingProofs.vos
-Compiler/AccountingProofs.vo Compiler/AccountingProofs.glob Compiler/AccountingProofs.v.beautified Compiler/AccountingProofs.required_vo: Compiler/AccountingProofs.v Gen/AstBuilderArms.vo Compiler/Accounting.vo
-Compiler/AccountingProofs.vio: Compiler/AccountingProofs.v Gen/AstBuilderArms.vio Compiler/Accounting.vio
-Compiler/AccountingProofs.vos Compiler/AccountingProofs.vok Compiler/AccountingProofs.required_vos: Compiler/AccountingProofs.v Gen/AstBuilderArms.vos Compiler/Accounting.vos
+Compiler/AccountingProofs.vo Compiler/AccountingProofs.glob Compiler/AccountingProofs.v.beautified Compiler/AccountingProofs.required_vo: Compiler/AccountingProofs.v Gen/AstBuilderArms.vo Compiler/Accounting.vo Compiler/CstAgreement.vo
+Compiler/AccountingProofs.vio: Compiler/AccountingProofs.v Gen/AstBuilderArms.vio Compiler/Accounting.vio Compiler/CstAgreement.vio
+Compiler/AccountingProofs.vos Compiler/AccountingProofs.vok Compiler/AccountingProofs.required_vos: Compiler/AccountingProofs.v Gen/AstBuilderArms.vos Compiler/Accounting.vos Compiler/CstAgreement.vos
 Compiler/CompilerCheck.vo Compiler/CompilerCheck.glob Compiler/CompilerCheck.v.beautified Compiler/CompilerCheck.required_vo: Compiler/CompilerCheck.v Base/Utf8.vo Gen/AstBuilderArms.vo Compiler/Accounting.vo
 Compiler/CompilerCheck.vio: Compiler/CompilerCheck.v Base/Utf8.vio Gen/AstBuilderArms.vio Compiler/Accounting.vio
 Compiler/CompilerCheck.vos Compiler/CompilerCheck.vok Compiler/CompilerCheck.required_vos: Compiler/CompilerCheck.v Base/Utf8.vos Gen/AstBuilderArms.vos Compiler/Accounting.vos
+Compiler/CstAgreement.vo Compiler/CstAgreement.glob Compiler/CstAgreement.v.beautified Compiler/CstAgreement.required_vo: Compiler/CstAgreement.v Gen/AstBuilderArms.vo
+Compiler/CstAgreement.vio: Compiler/CstAgreement.v Gen/AstBuilderArms.vio
+Compiler/CstAgreement.vos Compiler/CstAgreement.vok Compiler/CstAgreement.required_vos: Compiler/CstAgreement.v Gen/AstBuilderArms.vos
 Compiler/Snapshot.vo Compiler/Snapshot.glob Compiler/Snapshot.v.beautified Compiler/Snapshot.required_vo: Compiler/Snapshot.v Gen/SnapshotGen.vo
 Compiler/Snapshot.vio: Compiler/Snapshot.v Gen/SnapshotGen.vio
 Compiler/Snapshot.vos Compiler/Snapshot.vok Compiler/Snapshot.required_vos: Compiler/Snapshot.v Gen/SnapshotGen.vos
@@ -82,6 +85,12 @@ Compiler/SnapshotCheck.vos Compiler/SnapshotCheck.vok Compiler/SnapshotCheck.req
 Compiler/SnapshotProofs.vo Compiler/SnapshotProofs.glob Compiler/SnapshotProofs.v.beautified Compiler/SnapshotProofs.required_vo: Compiler/SnapshotProofs.v Gen/SnapshotGen.vo Compiler/Snapshot.vo
 Compiler/SnapshotProofs.vio: Compiler/SnapshotProofs.v Gen/SnapshotGen.vio Compiler/Snapshot.vio
 Compiler/SnapshotProofs.vos Compiler/SnapshotProofs.vok Compiler/SnapshotProofs.required_vos: Compiler/SnapshotProofs.v Gen/SnapshotGen.vos Compiler/Snapshot.vos
+Compiler/Suppress.vo Compiler/Suppress.glob Compiler/Suppress.v.beautified Compiler/Suppress.required_vo: Compiler/Suppress.v Gen/SnapshotGen.vo
+Compiler/Suppress.vio: Compiler/Suppress.v Gen/SnapshotGen.vio
+Compiler/Suppress.vos Compiler/Suppress.vok Compiler/Suppress.required_vos: Compiler/Suppress.v Gen/SnapshotGen.vos
+Compiler/SuppressProofs.vo Compiler/SuppressProofs.glob Compiler/SuppressProofs.v.beautified Compiler/SuppressProofs.required_vo: Compiler/SuppressProofs.v Gen/SnapshotGen.vo Compiler/Suppress.vo
+Compiler/SuppressProofs.vio: Compiler/SuppressProofs.v Gen/SnapshotGen.vio Compiler/Suppress.vio
+Compiler/SuppressProofs.vos Compiler/SuppressProofs.vok Compiler/SuppressProofs.required_vos: Compiler/SuppressProofs.v Gen/SnapshotGen.vos Compiler/Suppress.vos
 Conc/Interleave.vo Conc/Interleave.glob Conc/Interleave.v.beautified Conc/Interleave.required_vo: Conc/Interleave.v Gen/ConcGen.vo
 Conc/Interleave.vio: Conc/Interleave.v Gen/ConcGen.vio
 Conc/Interleave.vos Conc/Interleave.vok Conc/Interleave.required_vos: Conc/Interleave.v Gen/ConcGen.vos
@@ -91,18 +100,18 @@ Conc/InterleaveCheck.vos Conc/InterleaveCheck.vok Conc/InterleaveCheck.required_
 Conc/InterleaveProofs.vo Conc/InterleaveProofs.glob Conc/InterleaveProofs.v.beautified Conc/InterleaveProofs.required_vo: Conc/InterleaveProofs.v Gen/ConcGen.vo Conc/Interleave.vo
 Conc/InterleaveProofs.vio: Conc/InterleaveProofs.v Gen/ConcGen.vio Conc/Interleave.vio
 Conc/InterleaveProofs.vos Conc/InterleaveProofs.vok Conc/InterleaveProofs.required_vos: Conc/InterleaveProofs.v Gen/ConcGen.vos Conc/Interleave.vos
-Cond/Check.vo Cond/Check.glob Cond/Check.v.beautified Cond/Check.required_vo: Cond/Check.v Cond/Syntax.vo Cond/Sem.vo Cond/Quirks.vo Cond/RuleSet.vo Cond/Machine.vo Cond/Emit.vo Cond/IrTree.vo
-Cond/Check.vio: Cond/Check.v Cond/Syntax.vio Cond/Sem.vio Cond/Quirks.vio Cond/RuleSet.vio Cond/Machine.vio Cond/Emit.vio Cond/IrTree.vio
-Cond/Check.vos Cond/Check.vok Cond/Check.required_vos: Cond/Check.v Cond/Syntax.vos Cond/Sem.vos Cond/Quirks.vos Cond/RuleSet.vos Cond/Machine.vos Cond/Emit.vos Cond/IrTree.vos
+Cond/Check.vo Cond/Check.glob Cond/Check.v.beautified Cond/Check.required_vo: Cond/Check.v Cond/Syntax.vo Cond/Sem.vo Cond/Rename.vo Cond/Quirks.vo Cond/RuleSet.vo Cond/Machine.vo Cond/Emit.vo Cond/IrTree.vo Cond/Wasm.vo
+Cond/Check.vio: Cond/Check.v Cond/Syntax.vio Cond/Sem.vio Cond/Rename.vio Cond/Quirks.vio Cond/RuleSet.vio Cond/Machine.vio Cond/Emit.vio Cond/IrTree.vio Cond/Wasm.vio
+Cond/Check.vos Cond/Check.vok Cond/Check.required_vos: Cond/Check.v Cond/Syntax.vos Cond/Sem.vos Cond/Rename.vos Cond/Quirks.vos Cond/RuleSet.vos Cond/Machine.vos Cond/Emit.vos Cond/IrTree.vos Cond/Wasm.vos
 Cond/Emit.vo Cond/Emit.glob Cond/Emit.v.beautified Cond/Emit.required_vo: Cond/Emit.v Cond/Syntax.vo Cond/Sem.vo Cond/Quirks.vo Cond/Machine.vo Gen/EmitFacts.vo
 Cond/Emit.vio: Cond/Emit.v Cond/Syntax.vio Cond/Sem.vio Cond/Quirks.vio Cond/Machine.vio Gen/EmitFacts.vio
 Cond/Emit.vos Cond/Emit.vok Cond/Emit.required_vos: Cond/Emit.v Cond/Syntax.vos Cond/Sem.vos Cond/Quirks.vos Cond/Machine.vos Gen/EmitFacts.vos
 Cond/EmitBase.vo Cond/EmitBase.glob Cond/EmitBase.v.beautified Cond/EmitBase.required_vo: Cond/EmitBase.v Cond/Syntax.vo Cond/Sem.vo Cond/Quirks.vo Cond/Machine.vo Cond/MachineProofs.vo Cond/Emit.vo
 Cond/EmitBase.vio: Cond/EmitBase.v Cond/Syntax.vio Cond/Sem.vio Cond/Quirks.vio Cond/Machine.vio Cond/MachineProofs.vio Cond/Emit.vio
 Cond/EmitBase.vos Cond/EmitBase.vok Cond/EmitBase.required_vos: Cond/EmitBase.v Cond/Syntax.vos Cond/Sem.vos Cond/Quirks.vos Cond/Machine.vos Cond/MachineProofs.vos Cond/Emit.vos
-Cond/EmitProofs.vo Cond/EmitProofs.glob Cond/EmitProofs.v.beautified Cond/EmitProofs.required_vo: Cond/EmitProofs.v Cond/Syntax.vo Cond/Sem.vo Cond/SemProofs.vo Cond/Quirks.vo Cond/QuirksProofs.vo Cond/Machine.vo Cond/MachineProofs.vo Cond/Emit.vo Cond/EmitBase.vo
-Cond/EmitProofs.vio: Cond/EmitProofs.v Cond/Syntax.vio Cond/Sem.vio Cond/SemProofs.vio Cond/Quirks.vio Cond/QuirksProofs.vio Cond/Machine.vio Cond/MachineProofs.vio Cond/Emit.vio Cond/EmitBase.vio
-Cond/EmitProofs.vos Cond/EmitProofs.vok Cond/EmitProofs.required_vos: Cond/EmitProofs.v Cond/Syntax.vos Cond/Sem.vos Cond/SemProofs.vos Cond/Quirks.vos Cond/QuirksProofs.vos Cond/Machine.vos Cond/MachineProofs.vos Cond/Emit.vos Cond/EmitBase.vos
+Cond/EmitProofs.vo Cond/EmitProofs.glob Cond/EmitProofs.v.beautified Cond/EmitProofs.required_vo: Cond/EmitProofs.v Cond/RunsProofs.vo Cond/Syntax.vo Cond/Sem.vo Cond/SemProofs.vo Cond/Quirks.vo Cond/QuirksProofs.vo Cond/Machine.vo Cond/MachineProofs.vo Cond/Emit.vo Cond/EmitBase.vo
+Cond/EmitProofs.vio: Cond/EmitProofs.v Cond/RunsProofs.vio Cond/Syntax.vio Cond/Sem.vio Cond/SemProofs.vio Cond/Quirks.vio Cond/QuirksProofs.vio Cond/Machine.vio Cond/MachineProofs.vio Cond/Emit.vio Cond/EmitBase.vio
+Cond/EmitProofs.vos Cond/EmitProofs.vok Cond/EmitProofs.required_vos: Cond/EmitProofs.v Cond/RunsProofs.vos Cond/Syntax.vos Cond/Sem.vos Cond/SemProofs.vos Cond/Quirks.vos Cond/QuirksProofs.vos Cond/Machine.vos Cond/MachineProofs.vos Cond/Emit.vos Cond/EmitBase.vos
 Cond/HostCheck.vo Cond/HostCheck.glob Cond/HostCheck.v.beautified Cond/HostCheck.required_vo: Cond/HostCheck.v Cond/HostTypes.vo Cond/HostModel.vo Cond/Traps.vo Gen/HostFns.vo
 Cond/HostCheck.vio: Cond/HostCheck.v Cond/HostTypes.vio Cond/HostModel.vio Cond/Traps.vio Gen/HostFns.vio
 Cond/HostCheck.vos Cond/HostCheck.vok Cond/HostCheck.required_vos: Cond/HostCheck.v Cond/HostTypes.vos Cond/HostModel.vos Cond/Traps.vos Gen/HostFns.vos
@@ -157,6 +166,9 @@ Cond/RuleSet.vos Cond/RuleSet.vok Cond/RuleSet.required_vos: Cond/RuleSet.v Cond
 Cond/RuleSetProofs.vo Cond/RuleSetProofs.glob Cond/RuleSetProofs.v.beautified Cond/RuleSetProofs.required_vo: Cond/RuleSetProofs.v Cond/Syntax.vo Cond/Sem.vo Cond/RuleSet.vo
 Cond/RuleSetProofs.vio: Cond/RuleSetProofs.v Cond/Syntax.vio Cond/Sem.vio Cond/RuleSet.vio
 Cond/RuleSetProofs.vos Cond/RuleSetProofs.vok Cond/RuleSetProofs.required_vos: Cond/RuleSetProofs.v Cond/Syntax.vos Cond/Sem.vos Cond/RuleSet.vos
+Cond/RunsProofs.vo Cond/RunsProofs.glob Cond/RunsProofs.v.beautified Cond/RunsProofs.required_vo: Cond/RunsProofs.v Cond/Syntax.vo Cond/Sem.vo Cond/Quirks.vo Cond/Machine.vo Cond/Emit.vo
+Cond/RunsProofs.vio: Cond/RunsProofs.v Cond/Syntax.vio Cond/Sem.vio Cond/Quirks.vio Cond/Machine.vio Cond/Emit.vio
+Cond/RunsProofs.vos Cond/RunsProofs.vok Cond/RunsProofs.required_vos: Cond/RunsProofs.v Cond/Syntax.vos Cond/Sem.vos Cond/Quirks.vos Cond/Machine.vos Cond/Emit.vos
 Cond/Sem.vo Cond/Sem.glob Cond/Sem.v.beautified Cond/Sem.required_vo: Cond/Sem.v Cond/Syntax.vo
 Cond/Sem.vio: Cond/Sem.v Cond/Syntax.vio
 Cond/Sem.vos Cond/Sem.vok Cond/Sem.required_vos: Cond/Sem.v Cond/Syntax.vos
@@ -172,6 +184,9 @@ Cond/Traps.vos Cond/Traps.vok Cond/Traps.required_vos: Cond/Traps.v Cond/HostTyp
 Cond/TrapsProofs.vo Cond/TrapsProofs.glob Cond/TrapsProofs.v.beautified Cond/TrapsProofs.required_vo: Cond/TrapsProofs.v Cond/HostTypes.vo Cond/HostModel.vo Cond/Traps.vo Gen/HostFns.vo
 Cond/TrapsProofs.vio: Cond/TrapsProofs.v Cond/HostTypes.vio Cond/HostModel.vio Cond/Traps.vio Gen/HostFns.vio
 Cond/TrapsProofs.vos Cond/TrapsProofs.vok Cond/TrapsProofs.required_vos: Cond/TrapsProofs.v Cond/HostTypes.vos Cond/HostModel.vos Cond/Traps.vos Gen/HostFns.vos
+Cond/Wasm.vo Cond/Wasm.glob Cond/Wasm.v.beautified Cond/Wasm.required_vo: Cond/Wasm.v Cond/Syntax.vo Cond/Sem.vo Cond/Quirks.vo Cond/Machine.vo Cond/Emit.vo Gen/EmitFacts.vo
+Cond/Wasm.vio: Cond/Wasm.v Cond/Syntax.vio Cond/Sem.vio Cond/Quirks.vio Cond/Machine.vio Cond/Emit.vio Gen/EmitFacts.vio
+Cond/Wasm.vos Cond/Wasm.vok Cond/Wasm.required_vos: Cond/Wasm.v Cond/Syntax.vos Cond/Sem.vos Cond/Quirks.vos Cond/Machine.vos Cond/Emit.vos Gen/EmitFacts.vos
 Fix/Escape.vo Fix/Escape.glob Fix/Escape.v.beautified Fix/Escape.required_vo: Fix/Escape.v Gen/FixApply.vo
 Fix/Escape.vio: Fix/Escape.v Gen/FixApply.vio
 Fix/Escape.vos Fix/Escape.vok Fix/Escape.required_vos: Fix/Escape.v Gen/FixApply.vos
